@@ -343,5 +343,196 @@ Section ChainInv.
           - exfalso. assert (p_init P = Some Done) by (eapply (OPEN w t i (p_next Q)); eassumption). congruence. }
         destruct (next_stable w l _ Q HQ Hnn) as (Q' & HQ' & Hn'). exists Q'. split; [exact HQ'|congruence].
     Qed.
+    (* what a step does to Proposed.Index of one configuration *)
+    Lemma cfg_post_cases t (C' : config) : cfgs (step w l) !! t = Some C' ->
+      (exists C : config, cfgs w !! t = Some C /\ c_proposed C' = c_proposed C) \/
+      (exists (C : config) (P Q : prop), cfgs w !! t = Some C /\ c_proposed C < c_proposed C' /\
+         props w !! (t, c_proposed C') = Some P /\ p_init P = Some Doing /\
+         props w !! (t, c_proposed C) = Some Q /\ p_next Q <> 0 /\ p_prev P <> 0) \/
+      (cfgs w !! t = None /\ exists P : prop, props w !! (t, c_proposed C') = Some P /\ p_init P <> Some Done).
+    Proof.
+      intros H'. apply cfg_step in H'.
+      destruct H' as [(C & HCf & [S|(ctl & n & o & c0 & -> & Hw & S)])|(Hn & i & n & o & -> & [P HP] & Hcore)].
+      - left. exists C. split; [exact HCf|]. sim_cbn S. congruence.
+      - destruct (tail_ok _ _ HCf) as (Q & HQ & Hpos).
+        inversion Hw; subst; sim_cbn S; try (left; exists C; split; [exact HCf|congruence]).
+        right. left. rewrite <- S2.
+        match goal with Hg : _ \/ _ \/ _ |- _ => destruct Hg as [Hz|[Hnone|(Q0 & HQ0 & Hnn & Hpp)]] end; [lia|congruence|].
+        rewrite HQ in HQ0. injection HQ0 as <-. eexists C, _, Q. repeat split; eauto.
+      - right. right. split; [exact Hn|]. unfold core in Hcore. injection Hcore as _ Hpi _ _ _ _ _ _ _. rewrite Hpi.
+        exists P. split; [exact HP|]. intros Hd. destruct (ci_reg _ HC _ _ _ HP Hd) as (C0 & HC0 & _). congruence.
+    Qed.
+
+    Lemma post_tail_pre t (C' : config) : cfgs (step w l) !! t = Some C' -> is_Some (props w !! (t, c_proposed C')).
+    Proof.
+      intros H'. destruct (cfg_post_cases _ _ H') as [(C & HCf & ->)|[(C & P & Q & _ & _ & HP & _)|(_ & P & HP & _)]].
+      - eapply ci_tail; eassumption.
+      - rewrite HP. eexists; reflexivity.
+      - rewrite HP. eexists; reflexivity.
+    Qed.
+
+    (* a proposal that is still initialising and not yet registered stays so *)
+    Lemma open_post t n (Pn : prop) : props w !! (t, n) = Some Pn -> p_init Pn <> Some Done ->
+      (forall C : config, cfgs w !! t = Some C -> c_proposed C < n) ->
+      exists Pn' : prop, props (step w l) !! (t, n) = Some Pn' /\ p_init Pn' <> Some Done.
+    Proof.
+      intros HPn Hnd Hlt. destruct (prop_step_keep w l (t, n)) as [Pn' HPn']; [rewrite HPn; eexists; reflexivity|].
+      exists Pn'. split; [exact HPn'|].
+      destruct (prop_post_old _ _ _ _ _ HPn HPn') as [(_ & _ & He)|(t0 & i0 & n0 & o & _ & Hl)]; [congruence|].
+      destruct Hl as [(_ & _ & [He|[(_ & _ & Hx)|([= <- <-] & _ & _ & C & HCf & Hle)]])|[(C & Pi & _ & _ & _ & _ & _ & _ & _ & ->)|(C & Q & _ & _ & _ & _ & _ & _ & _ & _ & ->)]];
+        try congruence; try exact Hnd.
+      specialize (Hlt _ HCf). lia.
+    Qed.
+
+    Lemma tailnext_core t (C : config) (Q Q' : prop) :
+      cfgs w !! t = Some C -> props w !! (t, c_proposed C) = Some Q -> props (step w l) !! (t, c_proposed C) = Some Q' -> p_next Q' <> 0 ->
+      exists Pn' : prop, props (step w l) !! (t, p_next Q') = Some Pn' /\ p_init Pn' <> Some Done.
+    Proof.
+      intros HCf HQ HQ' Hnn.
+      assert (Hsame : p_next Q' = p_next Q -> exists Pn' : prop, props (step w l) !! (t, p_next Q') = Some Pn' /\ p_init Pn' <> Some Done).
+      { intros He. rewrite He in Hnn |- *. destruct (ci_tailnext _ HC _ _ _ HCf HQ Hnn) as (Pn & HPn & Hnd).
+        destruct (links_ordered candidate candidate_rb rollback_of overlay commit_merge payload record_applied touched restore
+                    resync_payload doc_ok dev_apply stamp v_empty d_empty ch_empty _ _ _ _ Hr HQ) as [_ [Hz|Hlt]]; [congruence|].
+        apply (open_post _ _ _ HPn Hnd). intros C0 HC0. rewrite HCf in HC0. injection HC0 as <-. exact Hlt. }
+      destruct (prop_post_old _ _ _ _ _ HQ HQ') as [(_ & He & _)|(t0 & i0 & n0 & o & _ & Hl)]; [exact (Hsame He)|].
+      destruct Hl as [(_ & He & _)|[(C1 & Pi & HC1 & HPi & Hdo & Hlt & _ & [= <- _] & _ & ->)|(C1 & Q1 & _ & _ & _ & _ & _ & _ & _ & _ & ->)]].
+      - exact (Hsame He).
+      - cbn. rewrite HCf in HC1. injection HC1 as <-. apply (open_post _ _ _ HPi); [congruence|].
+        intros C0 HC0. rewrite HCf in HC0. injection HC0 as <-. exact Hlt.
+      - apply Hsame. reflexivity.
+    Qed.
+
+    Lemma step_tailnext t (C' : config) (Q' : prop) :
+      cfgs (step w l) !! t = Some C' -> props (step w l) !! (t, c_proposed C') = Some Q' -> p_next Q' <> 0 ->
+      exists Pn' : prop, props (step w l) !! (t, p_next Q') = Some Pn' /\ p_init Pn' <> Some Done.
+    Proof.
+      intros H' HQ' Hnn.
+      (* a tail that is still initialising has NextIndex 0, before and after the step *)
+      assert (Hopen : forall P : prop, props w !! (t, c_proposed C') = Some P -> p_init P <> Some Done ->
+                      (forall C : config, cfgs w !! t = Some C -> c_proposed C < c_proposed C') -> False).
+      { intros P HP Hnd Hlt. pose proof (ci_opennext _ HC _ _ _ HP Hnd) as Hz.
+        destruct (prop_post_old _ _ _ _ _ HP HQ') as [(_ & He & _)|(t0 & i0 & n0 & o & _ & Hl)]; [congruence|].
+        destruct Hl as [(_ & He & _)|[(C1 & Pi & HC1 & _ & _ & Hlt1 & _ & [= <- Hk] & _ & ->)|(C1 & Q1 & _ & _ & _ & _ & _ & _ & _ & _ & ->)]];
+          try congruence.
+        - specialize (Hlt _ HC1). lia.
+        - cbn in Hnn. congruence. }
+      destruct (cfg_post_cases _ _ H') as [(C & HCf & He)|[(C & P & Q & HCf & Hlt & HP & Hdo & _)|(Hn & P & HP & Hnd)]].
+      - rewrite He in HQ'. destruct (ci_tail _ HC _ _ HCf) as [Q HQ]. eapply tailnext_core; eassumption.
+      - exfalso. apply (Hopen P HP); [congruence|]. intros C0 HC0. rewrite HCf in HC0. injection HC0 as <-. exact Hlt.
+      - exfalso. apply (Hopen P HP Hnd). intros C0 HC0. congruence.
+    Qed.
+    (* a registered proposal (index <= Proposed.Index after the step) existed before the step, with the same PrevIndex
+       unless the step linked it *)
+    Lemma registered_pre t (C' : config) i (P' : prop) :
+      cfgs (step w l) !! t = Some C' -> props (step w l) !! (t, i) = Some P' -> i <= c_proposed C' ->
+      exists P : prop, props w !! (t, i) = Some P /\ (p_prev P' = 0 -> p_prev P = 0).
+    Proof.
+      intros H' HP' Hle. destruct (props w !! (t, i)) as [P|] eqn:HP.
+      - exists P. split; [reflexivity|].
+        destruct (prop_post_old _ _ _ _ _ HP HP') as [(He & _)|(t0 & i0 & n0 & o & _ & Hl)]; [congruence|].
+        destruct Hl as [(He & _)|[(C1 & Pi & _ & _ & _ & _ & _ & _ & _ & ->)|(C1 & Q1 & _ & _ & _ & _ & Hpos & _ & _ & _ & ->)]];
+          cbn; try congruence. lia.
+      - exfalso. apply prop_post in HP'. destruct HP' as [(_ & _ & _ & _ & n & o & _ & Hin)|(P & HP0 & _)]; [|congruence].
+        cbn in Hin. destruct (post_tail_pre _ _ H') as [Q HQ].
+        destruct (N.eq_dec i (c_proposed C')) as [->|Hne]; [congruence|].
+        eapply (no_create_below w t i (c_proposed C')); [exact Hr|exact Hin|exact HQ|lia].
+    Qed.
+
+    Lemma step_first t (C' : config) i j (P' Q' : prop) :
+      cfgs (step w l) !! t = Some C' -> props (step w l) !! (t, i) = Some P' -> props (step w l) !! (t, j) = Some Q' ->
+      i <= c_proposed C' -> j <= c_proposed C' -> p_prev P' = 0 -> i <= j.
+    Proof.
+      intros H' HP' HQ' Hi Hj Hz.
+      destruct (registered_pre _ _ _ _ H' HP' Hi) as (P & HP & Hz'). specialize (Hz' Hz).
+      destruct (registered_pre _ _ _ _ H' HQ' Hj) as (Q & HQ & _).
+      destruct (cfg_post_cases _ _ H') as [(C & HCf & He)|[(C & Pw & Qt & HCf & Hlt & HPw & Hdo & _ & _ & Hpp)|(Hn & Pc & HPc & Hnd)]].
+      - rewrite He in Hi, Hj. eapply (ci_first _ HC t C i j); eassumption.
+      - destruct (N.le_gt_cases i (c_proposed C)) as [Hi0|Hi0].
+        + destruct (N.le_gt_cases j (c_proposed C)) as [Hj0|Hj0]; [|lia]. eapply (ci_first _ HC t C i j); eassumption.
+        + destruct (N.eq_dec i (c_proposed C')) as [->|Hne].
+          * rewrite HP in HPw. injection HPw as <-. congruence.
+          * exfalso. assert (Hd : p_init P = Some Done) by (eapply (OPEN w t i (c_proposed C')); [exact Hr|exact HP|exact HPw|lia]).
+            destruct (ci_reg _ HC _ _ _ HP Hd) as (C0 & HC0 & Hle0). rewrite HCf in HC0. injection HC0 as <-. lia.
+      - destruct (N.eq_dec j (c_proposed C')) as [->|Hne]; [exact Hi|].
+        exfalso. assert (Hd : p_init Q = Some Done) by (eapply (OPEN w t j (c_proposed C')); [exact Hr|exact HQ|exact HPc|lia]).
+        destruct (ci_reg _ HC _ _ _ HQ Hd) as (C0 & HC0 & _). congruence.
+    Qed.
+
+    Lemma step_cursors t (C' : config) : cfgs (step w l) !! t = Some C' ->
+      (c_committed C' <> 0 -> exists P' : prop, props (step w l) !! (t, c_committed C') = Some P' /\ p_init P' = Some Done) /\
+      (c_applied C' <> 0 -> exists P' : prop, props (step w l) !! (t, c_applied C') = Some P' /\ p_init P' = Some Done).
+    Proof.
+      intros H'.
+      assert (Hmover : forall i (P : prop), props w !! (t, i) = Some P ->
+                is_Some (p_validate P) \/ is_Some (p_commit P) \/ is_Some (p_apply P) \/ is_Some (p_abort P) ->
+                exists P' : prop, props (step w l) !! (t, i) = Some P' /\ p_init P' = Some Done).
+      { intros i P HP Hs. apply (init_done_post w l _ P HP). eapply phase_linked; eassumption. }
+      assert (Hold : forall C : config, cfgs w !! t = Some C ->
+                (c_committed C <> 0 -> exists P' : prop, props (step w l) !! (t, c_committed C) = Some P' /\ p_init P' = Some Done) /\
+                (c_applied C <> 0 -> exists P' : prop, props (step w l) !! (t, c_applied C) = Some P' /\ p_init P' = Some Done)).
+      { intros C HCf. split; intros Hnz.
+        - destruct (ci_committed _ HC _ _ HCf Hnz) as (P & HP & Hd). eapply init_done_post; eassumption.
+        - destruct (ci_applied _ HC _ _ HCf Hnz) as (P & HP & Hd). eapply init_done_post; eassumption. }
+      apply cfg_step in H'.
+      destruct H' as [(C & HCf & [S|(ctl & n & o & c0 & -> & Hw & S)])|(Hn & i & n & o & -> & _ & Hcore)].
+      - sim_cbn S. rewrite <- S3, <- S4. apply Hold. exact HCf.
+      - destruct (Hold _ HCf) as [Hc Ha].
+        inversion Hw; subst; sim_cbn S; rewrite <- ?S3, <- ?S4; (split; [try exact Hc|try exact Ha]); intros _;
+          match goal with HP : props _ !! (_, _) = Some ?P |- _ => apply (Hmover _ P HP) end;
+          repeat match goal with H : _ = Some _ |- _ => rewrite H end; eauto 6.
+      - unfold core in Hcore. injection Hcore as _ _ Hc Ha _ _ _ _ _. rewrite Hc, Ha. split; intros Hx; congruence.
+    Qed.
   End Step.
+  Lemma C_inv_step (w : world) l : reach w -> C_inv w -> C_inv (step w l).
+  Proof.
+    intros Hr HC. split.
+    - apply step_tail; assumption.
+    - apply step_reg; assumption.
+    - apply step_prev; assumption.
+    - apply step_tailnext; assumption.
+    - apply step_opennext; assumption.
+    - apply step_first; assumption.
+    - intros t C' H'. exact (proj1 (step_cursors w l Hr HC t C' H')).
+    - intros t C' H'. exact (proj2 (step_cursors w l Hr HC t C' H')).
+  Qed.
+
+  Theorem C_inv_reach (w : world) : reach w -> C_inv w.
+  Proof.
+    apply (reach_ind candidate candidate_rb rollback_of overlay commit_merge payload record_applied touched restore
+                     resync_payload doc_ok dev_apply stamp v_empty d_empty ch_empty C_inv).
+    - exact C_inv_init.
+    - intros w0 l Hr Hi. apply C_inv_step; assumption.
+  Qed.
+
+  (** * Consequences: the chain is a chain *)
+  (* no two INITIALIZED proposals of a target share a PrevIndex *)
+  Theorem unique_prev (w : world) t i j (P Q : prop) :
+    reach w -> props w !! (t, i) = Some P -> props w !! (t, j) = Some Q ->
+    p_init P = Some Done -> p_init Q = Some Done -> p_prev P = p_prev Q -> i = j.
+  Proof.
+    intros Hr HP HQ Hdp Hdq He. pose proof (C_inv_reach _ Hr) as HC.
+    destruct (N.eq_dec (p_prev P) 0) as [Hz|Hnz].
+    - destruct (ci_reg _ HC _ _ _ HP Hdp) as (C & HCf & Hi). destruct (ci_reg _ HC _ _ _ HQ Hdq) as (C0 & HC0 & Hj).
+      rewrite HCf in HC0. injection HC0 as <-.
+      pose proof (ci_first _ HC t C i j P Q HCf HP HQ Hi Hj Hz).
+      pose proof (ci_first _ HC t C j i Q P HCf HQ HP Hj Hi ltac:(congruence)). lia.
+    - destruct (ci_prev _ HC _ _ _ HP Hnz) as (R & HR & Hn). rewrite He in HR, Hnz.
+      destruct (ci_prev _ HC _ _ _ HQ Hnz) as (R' & HR' & Hn'). rewrite HR in HR'. injection HR' as <-. congruence.
+  Qed.
+
+  (* the first proposal of a target (PrevIndex 0) is below both cursors once they have moved *)
+  Lemma first_below_cursors (w : world) t i (P : prop) (C : config) :
+    reach w -> props w !! (t, i) = Some P -> cfgs w !! t = Some C -> p_init P = Some Done -> p_prev P = 0 ->
+    (c_committed C = 0 \/ i <= c_committed C) /\ (c_applied C = 0 \/ i <= c_applied C).
+  Proof.
+    intros Hr HP HCf Hd Hz. pose proof (C_inv_reach _ Hr) as HC.
+    destruct (ci_reg _ HC _ _ _ HP Hd) as (C0 & HC0 & Hi). rewrite HCf in HC0. injection HC0 as <-.
+    split.
+    - destruct (N.eq_dec (c_committed C) 0) as [|Hnz]; [left; assumption|right].
+      destruct (ci_committed _ HC _ _ HCf Hnz) as (Q & HQ & Hdq). destruct (ci_reg _ HC _ _ _ HQ Hdq) as (C0 & HC0 & Hj).
+      rewrite HCf in HC0. injection HC0 as <-. eapply (ci_first _ HC t C i (c_committed C)); eassumption.
+    - destruct (N.eq_dec (c_applied C) 0) as [|Hnz]; [left; assumption|right].
+      destruct (ci_applied _ HC _ _ HCf Hnz) as (Q & HQ & Hdq). destruct (ci_reg _ HC _ _ _ HQ Hdq) as (C0 & HC0 & Hj).
+      rewrite HCf in HC0. injection HC0 as <-. eapply (ci_first _ HC t C i (c_applied C)); eassumption.
+  Qed.
 End ChainInv.
